@@ -274,6 +274,9 @@ def targets(tier='quick'):
     T.append(PtRotationTarget('file'))
     from . import wire
     T.append(wire.OperatorsTarget(PROP))      # what left_right_super & co. mean (the rotation contracts use them)
+    # the transform that reaches the back ends IS the bath's (not its conjugate / inverse): hand-over contracts
+    from . import prep
+    T += prep.targets(PROP, lambda ob: {'func': 'basis_covariance', 'inputs': {'obligation': ob['name']}})
     return T
 
 
